@@ -211,11 +211,19 @@ func execDedicated(t *testing.T, plan any, out *Outcome) {
 						_ = c2
 					}
 				}
+				// (this clause is stated by C25 and by C27: reported under both)
 				if spec.S == "inval" && !sawTrackingOff {
-					out.violate("C25", "reused-with-tracking", "connection %d: %q was sent after dedicated session %s, which had installed an invalidation callback, without CLIENT TRACKING OFF", conn, truncArgv(ex.Argv), prefix)
+					for _, prop := range []string{"C25", "C27"} {
+						out.violate(prop, "reused-with-tracking", "connection %d: %q was sent after dedicated session %s, which had installed an invalidation callback, without CLIENT TRACKING OFF", conn, truncArgv(ex.Argv), prefix)
+					}
 				}
 				if ex.Sess.Tracking && spec.S == "inval" {
-					out.violate("C25", "reused-with-tracking", "connection %d still had tracking enabled when %q arrived after session %s", conn, truncArgv(ex.Argv), prefix)
+					for _, prop := range []string{"C25", "C27"} {
+						out.violate(prop, "reused-with-tracking", "connection %d still had tracking enabled when %q arrived after session %s", conn, truncArgv(ex.Argv), prefix)
+					}
+				}
+				if spec.S == "inval" {
+					out.judged("tracking-off-before-reuse")
 				}
 				goto done
 			}
